@@ -81,6 +81,38 @@ func (f *Frame) callExtern(v ssa.Value, fn *ssa.Function, argVals []ssa.Value, a
 		f.lockOp(args[0], true, pos)
 	case "(*sync.Mutex).Unlock", "(*sync.RWMutex).Unlock", "(*sync.RWMutex).RUnlock":
 		f.lockOp(args[0], false, pos)
+	case "sort.Slice":
+		// sort.Slice(x, less): the elements of the slice held by x are permuted in place; nothing else changes. The comparison
+		// closure is assumed to have no effect (it is called an unspecified number of times). The resulting order is not modelled.
+		var et types.Type
+		if mi, ok := argVals[0].(*ssa.MakeInterface); ok {
+			if st, ok := mi.X.Type().Underlying().(*types.Slice); ok {
+				et = st.Elem()
+			}
+		}
+		if et == nil {
+			f.enc.note("%s: sort.Slice on a value that is not a slice made into an interface at the call: effect not modelled", f.fname)
+			f.setResults(v, mkRes())
+			break
+		}
+		mi := argVals[0].(*ssa.MakeInterface)
+		sl := f.val(mi.X)
+		es := f.p.sortOf(et)
+		arr := f.p.sliceArray(et)
+		as := ArrSort(SInt, ArrSort(SInt, es))
+		H := f.stGet(arr, as)
+		na := f.enc.declConst(f.enc.fresh(f.sym("sorted")), ArrSort(SInt, es))
+		if f.frameHook != nil {
+			f.frameHook(f, &LV{kind: lvElem, arr: arr, asort: as, idx: SPtr(sl)}, mi.X, pos)
+		}
+		f.stSet(arr, Store(H, SPtr(sl), na))
+		at := f.atFn(es)
+		old := Select(H, SPtr(sl))
+		off, n := SOff(sl).S, SLen(sl).S
+		f.enc.addFact(na.S, fmt.Sprintf("(assert (forall ((i!s Int)) (! (=> (and (<= 0 i!s) (< i!s %[1]s)) (exists ((j!s Int)) (! (and (<= 0 j!s) (< j!s %[1]s) (= (%[2]s %[3]s %[4]s i!s) (%[2]s %[5]s %[4]s j!s))) :pattern ((%[2]s %[5]s %[4]s j!s))))) :pattern ((%[2]s %[3]s %[4]s i!s)))))", n, at, na.S, off, old.S))
+		f.enc.addFact(na.S, fmt.Sprintf("(assert (forall ((j!s Int)) (! (=> (and (<= 0 j!s) (< j!s %[1]s)) (exists ((i!s Int)) (! (and (<= 0 i!s) (< i!s %[1]s) (= (%[2]s %[3]s %[4]s i!s) (%[2]s %[5]s %[4]s j!s))) :pattern ((%[2]s %[3]s %[4]s i!s))))) :pattern ((%[2]s %[5]s %[4]s j!s)))))", n, at, na.S, off, old.S))
+		f.enc.addFact(na.S, fmt.Sprintf("(assert (forall ((k!s Int)) (! (=> (or (< k!s %[1]s) (<= (+ %[1]s %[2]s) k!s)) (= (select %[3]s k!s) (select %[4]s k!s))) :pattern ((select %[3]s k!s)))))", off, n, na.S, old.S))
+		f.setResults(v, mkRes())
 	case "strconv.ParseInt":
 		res := mkRes()
 		// bitSize constant: a successful parse fits the requested width
@@ -365,6 +397,8 @@ func externDoc(name string) string {
 		return "finds the first *Error / Errors in the chain; exact when the error itself has the target type"
 	case name == "strconv.ParseInt" || name == "strconv.ParseFloat":
 		return "a successful parse fits the requested bit size; value otherwise unconstrained; the error wraps no *Error of this package"
+	case name == "sort.Slice":
+		return "permutes the elements of the slice in place (every element kept, none added; the resulting order is not modelled); the comparison closure is assumed to have no effect"
 	case name == "time.Parse" || strings.HasPrefix(name, "strconv."):
 		return "results unconstrained, no effect on modelled ggql state; the error wraps no *Error of this package"
 	case name == "strings.HasPrefix":
